@@ -175,6 +175,24 @@ func build(scratch string, race bool) (string, error) {
 		out = filepath.Join(scratch, "sim.race.test")
 		args = []string{"test", "-c", "-race", "-tags", "verif", "-o", out}
 	}
+	if alt := os.Getenv("VERIF_REPO_OVERRIDE"); alt != "" {
+		// tools/run_seeded.py only: build against a scratch copy of the repository that carries a
+		// seeded change, so that /repo itself stays untouched while other checks run
+		gm, err := os.ReadFile(filepath.Join(verifDir, "sim", "go.mod"))
+		if err != nil {
+			return "", err
+		}
+		gm = bytes.ReplaceAll(gm, []byte("=> /repo"), []byte("=> "+alt))
+		mf := filepath.Join(scratch, "alt.go.mod")
+		if err := os.WriteFile(mf, gm, 0o644); err != nil {
+			return "", err
+		}
+		if gs, err := os.ReadFile(filepath.Join(verifDir, "sim", "go.sum")); err == nil {
+			_ = os.WriteFile(filepath.Join(scratch, "alt.go.sum"), gs, 0o644)
+		}
+		args = append(args, "-modfile="+mf)
+		fmt.Fprintf(os.Stderr, "NOTE: building against %s instead of /repo (VERIF_REPO_OVERRIDE)\n", alt)
+	}
 	args = append(args, "./simtest")
 	cmd := exec.Command(goBin, args...)
 	cmd.Dir = filepath.Join(verifDir, "sim")
